@@ -4,7 +4,7 @@ SPECIFICATION TSpec
 CONSTANTS
   FrontEnd = "v2"
   NCalls = 8
-  UserPrefixes = {"a", "b", "root"}
+  UserPrefixes = {"a", "long", "root"}
   UserVerbs = {"register", "unregister"}
   Routes <- R0
   MaxConn = 2
